@@ -332,7 +332,7 @@ func (e *evidence) addHarness(r *ExploreResult) {
 		"ssa_steps": r.Steps, "max_decision_depth": r.MaxDepth, "witnesses_reached": r.Reached,
 		"queries": map[string]int{"total": r.Solver.Queries, "sat": r.Solver.Sat, "unsat": r.Solver.Unsat, "unknown": r.Solver.Unknown, "feasibility": r.FeasQ, "assertion": r.AssertQ},
 		"solver_time_s": r.Solver.Time.Seconds(), "slowest_query_s": r.Solver.SlowQuery.Seconds(), "wall_s": r.Wall.Seconds(),
-		"fmt_approximations": r.FmtApprox, "incomplete": r.Incomplete, "violations_found": len(r.Violations),
+		"fmt_approximations": r.FmtApprox, "byte_domain_prefilter": map[string]int{"sat": r.LocalSat, "unsat": r.LocalUnsat}, "incomplete": r.Incomplete, "violations_found": len(r.Violations),
 	})
 }
 
